@@ -67,6 +67,51 @@ structure Req where
   base     : Str                       -- scheme://host as determined from X-Forwarded-* / request
   hdrs     : List (Str × Str)          -- client-supplied headers, canonical names
 
+/-! ### from the request as net/http delivers it to the digested `Req` (the glue in front of the decision logic) -/
+
+/-- `http.Header.Get`: the first value stored under the canonical name, "" if none -/
+def hdrGet (hdrs : List (Str × Str)) (name : Str) : Str :=
+  match hdrs.find? (fun p => p.1 = name) with
+  | some p => p.2
+  | none => []
+
+/-- `strings.Contains` -/
+def isInfix (p : Str) : Str → Bool
+  | [] => p.isEmpty
+  | c :: t => p.isPrefixOf (c :: t) || isInfix p t
+
+/-- what the handler reads of a request: method, Host, whether the connection is TLS, the parsed target and query parameters,
+    and the client's headers under their canonical names -/
+structure RawReq where
+  method   : Str
+  host     : Str
+  tls      : Bool
+  path     : Str
+  rawURI   : Str
+  qError   : Str
+  qErrDesc : Str
+  qState   : Str
+  qCode    : Str
+  hdrs     : List (Str × Str)
+
+/-- `determineScheme`: X-Forwarded-Proto if present, else by TLS -/
+def determineScheme (q : RawReq) : Str :=
+  if hdrGet q.hdrs "X-Forwarded-Proto".toList ≠ [] then hdrGet q.hdrs "X-Forwarded-Proto".toList
+  else if q.tls then "https".toList else "http".toList
+
+/-- `determineHost`: X-Forwarded-Host if present, else the request's Host -/
+def determineHost (q : RawReq) : Str :=
+  if hdrGet q.hdrs "X-Forwarded-Host".toList ≠ [] then hdrGet q.hdrs "X-Forwarded-Host".toList else q.host
+
+/-- the digested request the decision logic works on -/
+def digest (q : RawReq) : Req :=
+  { method := q.method, path := q.path, rawURI := q.rawURI, qError := q.qError, qErrDesc := q.qErrDesc, qState := q.qState,
+    qCode := q.qCode,
+    json := isInfix "application/json".toList (hdrGet q.hdrs "Accept".toList),
+    preflight := decide (q.method = "OPTIONS".toList) && decide (hdrGet q.hdrs "Origin".toList ≠ []),
+    base := determineScheme q ++ "://".toList ++ determineHost q,
+    hdrs := q.hdrs }
+
 inductive Body | html (escapedMsg : Str) | json (msg : Str) | plain
 inductive Resp
   | forward (hdrs : List (Str × Str))
